@@ -459,6 +459,10 @@ func (fr *Frame) applyContract(fc *FuncContract, site ssa.Instruction, obj *type
 		vc.havocKey(st, "wm", "Int")
 		vc.assume(st.guard, app("<=", wmOld, vc.wm(st)))
 		for _, m := range fc.Modifies {
+			if m == "wm" {
+				// the allocation watermark has just been advanced, monotonically
+				continue
+			}
 			fr.havocItem(m, mk(pre), st)
 		}
 		for i := 0; i < res.Len(); i++ {
